@@ -855,3 +855,430 @@ def _gmcd_build(d):
 
 CONTRACTS["ufo2ft.util:getMaxComponentDepth#rec"].runtime = Runtime(_gmcd_cases, _gmcd_build)
 CONTRACTS["ufo2ft.util:getMaxComponentDepth#top"].runtime = Runtime(_gmcd_cases, lambda d: {k: v for k, v in _gmcd_build(d).items() if k in ("glyph", "glyphSet")})
+
+# =====================================================================================================
+# CubicToQuadraticFilter.filter / ReverseContourDirectionFilter.filter: every contour of a glyph with contours is re-drawn exactly once, in
+# order, through ONE converting pen over the glyph's own pen — Cu2QuPointPen(max_err = the context's ABSOLUTE error, reverse_direction and
+# all_quadratic as configured) resp. ReverseContourPointPen — after the old contours were cleared; a glyph without contours is left alone.
+# With set_context above: max_err == (conversionError or 1/1000) * unitsPerEm.
+#
+# TRUSTED (fontTools): Cu2QuPointPen(out, max_err, reverse_direction=False, stats=None, all_quadratic=True) emits, for each contour drawn
+# into it, one contour on `out` whose curves stay within max_err of the source (reversed iff reverse_direction); ReverseContourPointPen(out)
+# emits the reversed contour.  Modelled as: a NEW contour object is appended to the out pen's glyph, remembering its source contour and the
+# pen it came through (ghost fields).
+
+cls("C02_Contour", fields={"source": Ref("C02_Contour"), "via": Ref("C02_ConvPen")}, notes="contour; source / via: which contour it was converted from, through which pen (ghost)")
+cls("C02_GlyphPen", fields={"glyph": Ref("C02_CGlyph")}, notes="glyph.getPointPen(): a pen writing into that glyph")
+cls("C02_ConvPen", fields={"kind": STR, "out": Ref("C02_GlyphPen"), "max_err": REAL, "reverse_direction": BOOL, "all_quadratic": BOOL, "stats": Dict(STR, INT)},
+    notes="a converting point pen (kind 'cu2qu' = fontTools Cu2QuPointPen, 'reverse' = ReverseContourPointPen) with its constructor arguments")
+
+
+def _cglyph_iter(ex, st, v, node):
+    c = ex.read_field(st, v, "contours")
+    s = c.term
+    return IterInfo("indexed", n=z3.Length(s), item=lambda i: Val(Ref("C02_Contour"), s[i]), seqval=c)
+
+
+def _cglyph_clear(ex, st, self, args, kwargs, node):
+    c = ex.read_field(st, self, "contours")
+    ex.write_field(st, self, "contours", Val(c.ty, z3.Empty(c.ty.sort())), node)
+    n = ex.read_field(st, self, "cleared")
+    ex.write_field(st, self, "cleared", Val(INT, lift(n) + 1), node)
+    return Val.const(None)
+
+
+_cglyph_clear.modifies = ["C02_CGlyph.contours", "C02_CGlyph.cleared"]
+
+
+def _cglyph_pen(ex, st, self, args, kwargs, node):
+    p = ex.new_object(st, "C02_GlyphPen")
+    ex.write_field(st, p, "glyph", self, node)
+    return p
+
+
+def _contour_drawPoints(ex, st, self, args, kwargs, node):
+    (pen,) = args
+    g = ex.read_field(st, ex.read_field(st, pen, "out"), "glyph")
+    nc = ex.new_object(st, "C02_Contour")
+    ex.write_field(st, nc, "source", self, node)
+    ex.write_field(st, nc, "via", pen, node)
+    c = ex.read_field(st, g, "contours")
+    t = lift(c)
+    new = z3.Concat(t, z3.Unit(lift(nc)))
+    k = z3.Int(fresh_name("ck"))
+    st.assume(z3.And(z3.Length(new) == z3.Length(t) + 1, new[z3.Length(t)] == lift(nc), z3.ForAll([k], z3.Implies(z3.And(0 <= k, k < z3.Length(t)), new[k] == t[k]))))
+    ex.write_field(st, g, "contours", Val(c.ty, new), node)
+    return Val.const(None)
+
+
+_contour_drawPoints.modifies = ["C02_CGlyph.contours", "C02_Contour.source", "C02_Contour.via"]
+cls("C02_CGlyph", fields={"contours": List(Ref("C02_Contour")), "cleared": INT}, length=lambda ex, st, v: Val(INT, z3.Length(lift(ex.read_field(st, v, "contours")))),
+    iter=_cglyph_iter, methods={"clearContours": _cglyph_clear, "getPointPen": _cglyph_pen},
+    notes="glyph as the outline filters see it: its contours (len / iteration), clearContours, getPointPen; cleared = number of clearContours calls (ghost)")
+CLASSES["C02_Contour"].methods["drawPoints"] = _contour_drawPoints
+CLASSES["C02_Ctx"].fields["stats"] = Dict(STR, INT)
+
+
+@trusted("c02.Cu2QuPointPen", "fontTools.pens.cu2quPen.Cu2QuPointPen(other_point_pen, max_err, reverse_direction=False, stats=None, all_quadratic=True): arguments recorded (see the note above)")
+def _cu2qu_pen(ex, st, args, kwargs, node):
+    if len(args) != 2 or set(kwargs) - {"reverse_direction", "stats", "all_quadratic"}:
+        raise Unsupported("Cu2QuPointPen(...) argument shape", node)
+    p = ex.new_object(st, "C02_ConvPen")
+    ex.write_field(st, p, "kind", Val.const("cu2qu"), node)
+    ex.write_field(st, p, "out", args[0], node)
+    ex.write_field(st, p, "max_err", args[1], node)
+    ex.write_field(st, p, "reverse_direction", kwargs.get("reverse_direction", Val.const(False)), node)
+    ex.write_field(st, p, "all_quadratic", kwargs.get("all_quadratic", Val.const(True)), node)
+    if "stats" in kwargs:
+        ex.write_field(st, p, "stats", kwargs["stats"], node)
+    return p
+
+
+@trusted("c02.ReverseContourPointPen", "fontTools.pens.pointPen.ReverseContourPointPen(outPen): emits every contour reversed")
+def _reverse_pen(ex, st, args, kwargs, node):
+    if len(args) != 1 or kwargs:
+        raise Unsupported("ReverseContourPointPen(...) argument shape", node)
+    p = ex.new_object(st, "C02_ConvPen")
+    ex.write_field(st, p, "kind", Val.const("reverse"), node)
+    ex.write_field(st, p, "out", args[0], node)
+    return p
+
+
+cls("C02_Cu2QuFilterF", fields={"options": Ref("C02_Cu2QuOptions"), "context": Ref("C02_Ctx")}, notes="CubicToQuadraticFilter / ReverseContourDirectionFilter instance (options, context)")
+_OC = "old(glyph.contours)"
+_REDRAW_POST = {
+    "empty-glyph-untouched": f"implies(len({_OC}) == 0, not result and glyph.contours == {_OC} and glyph.cleared == old(glyph.cleared))",
+    "reports-change": f"result == (len({_OC}) > 0)",
+    "cleared-once": f"implies(len({_OC}) > 0, glyph.cleared == old(glyph.cleared) + 1)",
+    # no contour lost, duplicated or reordered: the k-th new contour comes from the k-th old one
+    "one-for-one-in-order": f"implies(len({_OC}) > 0, len(glyph.contours) == len({_OC}) and all(glyph.contours[k].source == {_OC}[k] for k in range(len({_OC}))))",
+    "one-pen-into-this-glyph": f"all(glyph.contours[k].via == glyph.contours[0].via and glyph.contours[k].via.out.glyph == glyph for k in range(len(glyph.contours))) or len({_OC}) == 0",
+}
+_REDRAW_LOOP = {
+    "for contour in contours": Loop(
+        index="i",
+        invariants={
+            "len": "len(glyph.contours) == i",
+            "existing": "all(allocated(glyph.contours[k]) for k in range(i))",  # (so that the next NEW contour object is none of them)
+            "sources": "all(glyph.contours[k].source == contours[k] for k in range(i))",
+            "via": "all(glyph.contours[k].via == pen for k in range(i))",
+            "pen": "pen.out.glyph == glyph",
+        },
+    )
+}
+_REDRAW_FRAME = ["C02_CGlyph.contours", "C02_CGlyph.cleared", "C02_Contour.source", "C02_Contour.via"]
+
+contract(
+    "ufo2ft.filters.cubicToQuadratic:CubicToQuadraticFilter.filter",
+    props=["C02"],
+    params={"self": Ref("C02_Cu2QuFilterF"), "glyph": Ref("C02_CGlyph")},
+    returns=BOOL,
+    globals={"Cu2QuPointPen": Val.obj(FuncRef(None, "c02.Cu2QuPointPen"))},
+    modifies=_REDRAW_FRAME,
+    ensures={
+        **_REDRAW_POST,
+        # the conversion pen: ABSOLUTE error of the context, direction and all-quadratic as configured
+        "cu2qu-options": f"implies(len({_OC}) > 0, glyph.contours[0].via.kind == 'cu2qu' and glyph.contours[0].via.max_err == self.context.absoluteError"
+                         " and glyph.contours[0].via.reverse_direction == self.options.reverseDirection and glyph.contours[0].via.all_quadratic == self.options.allQuadratic)",
+    },
+    canaries={"never-reverses": f"len({_OC}) > 0 and not glyph.contours[0].via.reverse_direction"},
+    locals={"contours": List(Ref("C02_Contour"))},
+    loops=_REDRAW_LOOP,
+)
+
+contract(
+    "ufo2ft.filters.reverseContourDirection:ReverseContourDirectionFilter.filter",
+    props=["C02"],
+    params={"self": Ref("C02_Cu2QuFilterF"), "glyph": Ref("C02_CGlyph")},
+    returns=BOOL,
+    globals={"ReverseContourPointPen": Val.obj(FuncRef(None, "c02.ReverseContourPointPen"))},
+    modifies=_REDRAW_FRAME,
+    ensures={**_REDRAW_POST, "reversing-pen": f"implies(len({_OC}) > 0, glyph.contours[0].via.kind == 'reverse')"},
+    canaries={"never": "not result"},
+    locals={"contours": List(Ref("C02_Contour"))},
+    loops=_REDRAW_LOOP,
+)
+
+
+# ---- run-time side: the real filters on real glyphs; thin recording wrappers make the ghost fields (source / via / cleared) observable ----
+class _RtState:
+    current = None  # (source contour wrapper, pen) of the drawPoints call in progress
+
+
+class _RtContour:
+    def __init__(self, real, source=None, via=None):
+        self.real, self.source, self.via = real, source, via
+
+    def drawPoints(self, pen):
+        _RtState.current = (self, pen)
+        try:
+            self.real.drawPoints(pen)
+        finally:
+            _RtState.current = None
+
+
+class _RtGlyphPen:
+    """the glyph's own point pen, observed: every finished contour is attributed to the drawPoints call in progress"""
+
+    def __init__(self, glyph, real):
+        self.glyph, self.real = glyph, real
+
+    def beginPath(self, **kw):
+        self.real.beginPath(**kw)
+
+    def addPoint(self, *a, **kw):
+        self.real.addPoint(*a, **kw)
+
+    def endPath(self):
+        self.real.endPath()
+        src, pen = _RtState.current if _RtState.current else (None, None)
+        self.glyph.contours.append(_RtContour(list(self.glyph.real)[-1], source=src, via=pen))
+
+    def addComponent(self, *a, **kw):
+        self.real.addComponent(*a, **kw)
+
+
+class _RtGlyph:
+    def __init__(self, real):
+        self.real = real
+        self.contours = [_RtContour(c) for c in real]
+        self.cleared = 0
+
+    def __len__(self):
+        return len(self.contours)
+
+    def __iter__(self):
+        return iter(self.contours)
+
+    def clearContours(self):
+        self.real.clearContours()
+        self.contours = []
+        self.cleared += 1
+
+    def getPointPen(self):
+        return _RtGlyphPen(self, self.real.getPointPen())
+
+
+def _rt_pen_views():
+    def out(p):
+        q = p.pen
+        while not isinstance(q, _RtGlyphPen):  # Cu2QuPointPen(reverse_direction=True) interposes its own ReverseContourPointPen
+            q = q.pen
+        return q
+
+    from fontTools.pens.cu2quPen import Cu2QuPointPen
+
+    return {
+        "kind": lambda p: "cu2qu" if isinstance(p, Cu2QuPointPen) else "reverse",
+        "out": out,
+        "reverse_direction": lambda p: not isinstance(p.pen, _RtGlyphPen),  # observable: the interposed reversing pen
+    }
+
+
+CLASSES["C02_ConvPen"].views.update(_rt_pen_views())
+
+
+def _redraw_cases(rng, n):
+    out = []
+    for k in range(n):
+        glyphs = {}
+        ncont = rng.choice([0, 1, 1, 2, 3])
+        conts = []
+        for c in range(ncont):
+            x = 100 * c
+            if rng.random() < 0.6:
+                conts.append([[x, 0, "line"], [x + 10, 50, None], [x + 20, 80, None], [x + 30, 10, "curve"], [x + 40, -20, "line"]])
+            else:
+                conts.append([[x, 0, "line"], [x + 50, 0, "line"], [x + 50, 50, "line"]])
+        glyphs["a"] = {"width": 500, "contours": conts}
+        out.append({"glyphs": glyphs, "err": [None, 0.002, 0.0005][k % 3], "rev": bool(k % 2), "allq": bool((k // 2) % 2), "upm": [1000, 2048][(k // 4) % 2], "ufolib": ["ufoLib2", "defcon"][k % 2]})
+    return out
+
+
+def _cu2qu_build(d):
+    from ufo2ft.filters.cubicToQuadratic import CubicToQuadraticFilter
+    from ufo2ft.util import _GlyphSet
+
+    f = rtlib.build_ufo({"glyphs": d["glyphs"], "info": {"unitsPerEm": d["upm"]}}, d["ufolib"])
+    kw = {"reverseDirection": d["rev"], "allQuadratic": d["allq"]}
+    if d["err"] is not None:
+        kw["conversionError"] = d["err"]
+    flt = CubicToQuadraticFilter(**kw)
+    flt.set_context(f, _GlyphSet.from_layer(f))
+    return {"self": flt, "glyph": _RtGlyph(f["a"])}
+
+
+def _rev_build(d):
+    from ufo2ft.filters.reverseContourDirection import ReverseContourDirectionFilter
+    from ufo2ft.util import _GlyphSet
+
+    f = rtlib.build_ufo({"glyphs": d["glyphs"]}, d["ufolib"])
+    flt = ReverseContourDirectionFilter()
+    flt.set_context(f, _GlyphSet.from_layer(f))
+    return {"self": flt, "glyph": _RtGlyph(f["a"])}
+
+
+CONTRACTS["ufo2ft.filters.cubicToQuadratic:CubicToQuadraticFilter.filter"].runtime = Runtime(_redraw_cases, _cu2qu_build)
+CONTRACTS["ufo2ft.filters.reverseContourDirection:ReverseContourDirectionFilter.filter"].runtime = Runtime(_redraw_cases, _rev_build)
+
+# =====================================================================================================
+# OutlineTTFCompiler.setupTable_glyf (+ BaseOutlineCompiler.getCompiledGlyphs): the glyf table gets, under every name of the glyph order,
+# exactly THE record compileGlyphs made for that name (so: from its own source glyph, with the compiler's rounding — contract above),
+# nothing else, with the compiler's glyph order; records are stored in non-decreasing component depth (bases before the composites
+# that use them).
+#
+# Call-site summaries (ufo2ft code that is not re-verified here):
+#  * getMaxComponentDepths — verified under C04 (contracts/c04.py, other class vocabulary): returns a dict name -> depth, or raises
+#    InvalidFontData for a cyclic reference (condition kept abstract here: `depth_cycle(self)`);
+#  * InstructionCompiler.compileGlyphInstructions — summarised by its FRAME (only `.program` / `.flags` of the record are assigned):
+#    syntactic hook obligation C02.frame.instruction-compiler.
+from . import lib  # noqa: E402
+
+_GLYF = lib.table_class("glyf")
+lib.table_class("loca")
+lib.table_class("maxp")
+CLASSES[_GLYF].fields.update({"glyphs": Dict(STR, Ref("C02_TTGlyph")), "glyphOrder": List(STR)})
+
+
+def _glyf_setitem(ex, st, self, idx, v, node):
+    """fontTools glyf.__setitem__(name, glyph): glyphs[name] = glyph; the name is appended to glyphOrder if it is not in it (TRUSTED)"""
+    from pyvc import models
+
+    cur = ex.read_field(st, self, "glyphs")
+    ex.write_field(st, self, "glyphs", models.set_item(ex, st, cur, idx, v, node), node)
+    order = ex.read_field(st, self, "glyphOrder")
+    t, x = lift(order), lift(idx, STR)
+    ex.write_field(st, self, "glyphOrder", Val(order.ty, z3.If(z3.Contains(t, z3.Unit(x)), t, z3.Concat(t, z3.Unit(x)))), node)
+
+
+CLASSES[_GLYF].setitem = _glyf_setitem
+CLASSES["table_maxp"].methods["recalc"] = lambda ex, st, self, args, kwargs, node: Val.const(None)  # fontTools maxp.recalc(font): reads glyf, writes maxp's own fields (not modelled)
+
+
+def _instr_compile(ex, st, self, args, kwargs, node):
+    return Val.const(None)
+
+
+cls("C02_InstrCompiler", methods={"compileGlyphInstructions": _instr_compile},
+    notes="ufo2ft InstructionCompiler: compileGlyphInstructions(ttGlyph, name) summarised by its frame (assigns only .program / .flags of the "
+          "record: hook obligation C02.frame.instruction-compiler); neither is a field of the glyf-record model")
+CLASSES["C02_TTCompiler"].fields.update({"otf": Ref("TTFont"), "tables": Set(STR), "_compiledGlyphs": Opt(Dict(STR, Ref("C02_TTGlyph"))),
+                                         "_maxComponentDepths": Opt(Dict(STR, INT)), "instructionCompiler": Ref("C02_InstrCompiler")})
+
+
+@specfn(BOOL, opaque=True, comp=Ref("C02_TTCompiler"))
+def depth_cycle(comp):
+    """some glyph of the compiler's glyph set reaches a cyclic component reference (getMaxComponentDepths raises InvalidFontData) — abstract"""
+    from ufo2ft.errors import InvalidFontData
+
+    try:
+        comp.getMaxComponentDepths()
+    except InvalidFontData:
+        return True
+    return False
+
+
+contract(
+    "ufo2ft.outlineCompiler:OutlineTTFCompiler.getMaxComponentDepths",
+    name="C02_TTCompiler",
+    props=[],  # call-site summary; the method is verified under C04
+    params={"self": Ref("C02_TTCompiler")},
+    returns=Dict(STR, INT),
+    modifies=["self._maxComponentDepths"],
+    ensures={"a-dict": "True"},
+    raises={"InvalidFontData": "depth_cycle(self)"},
+    notes="summary of OutlineTTFCompiler.getMaxComponentDepths for the receiver class of C02 (verified under C04 with its own vocabulary)",
+)
+
+_REC = "{d}[self.glyphOrder[a]]"
+_REC_FACTS = ("implies(not " + _G + ".tt_invalid, not {r}.empty and {r}.src == " + _G + " and {r}.penGlyphSet == self.allGlyphs and {r}.round == (1 if self.roundCoordinates else 0)"
+              " and {r}.dropImpliedOnCurves == self.dropImpliedOnCurves) and implies(" + _G + ".tt_invalid, {r}.empty)")
+_CACHE_FACTS = "all(self.glyphOrder[a] in {d} and " + _REC_FACTS.format(r=_REC) + " for a in range(len(self.glyphOrder)))"
+
+contract(
+    "ufo2ft.outlineCompiler:BaseOutlineCompiler.getCompiledGlyphs",
+    name="C02_TTCompiler",
+    props=["C02"],
+    params={"self": Ref("C02_TTCompiler")},
+    returns=Opt(Dict(STR, Ref("C02_TTGlyph"))),
+    requires=[
+        "all(n in self.allGlyphs for n in self.glyphOrder)",
+        # the cache is written by this method only (None after __init__): a cached dict is one compileGlyphs returned
+        "self._compiledGlyphs is None or (" + _CACHE_FACTS.format(d="self._compiledGlyphs") + ")",
+    ],
+    modifies=["self._compiledGlyphs", "TTGlyphPointPen.glyphSet", "TTGlyphPointPen.drawn"],
+    ensures={
+        "a-dict": "result is not None and self._compiledGlyphs == result",
+        "every-record-from-its-source": _CACHE_FACTS.format(d="result"),
+        "cache-kept": "implies(old(self._compiledGlyphs) is not None, result == old(self._compiledGlyphs))",
+    },
+    raises={"ValueError": _RAISES + " and self._compiledGlyphs is None"},
+    canaries={"recompiles": "old(self._compiledGlyphs) is not None and result != old(self._compiledGlyphs)"},
+)
+
+class _ProbeGlyphName(Val):
+    """An ARBITRARY glyph name (free constant the code never sees): the clauses below are proved for every name at once, without a
+    quantifier over the glyf dict / an ∃ over the positions of the sorted order.  Natively (run-time cross-check) it stands for 'a';
+    the all-names statement is evaluated there by the bounded clause."""
+
+    _NATIVE = "a"
+
+    def __call__(self):
+        return self
+
+    def __hash__(self):
+        return hash(self._NATIVE)
+
+    def __eq__(self, o):
+        return o == self._NATIVE if isinstance(o, str) else NotImplemented
+
+
+_PROBE = _ProbeGlyphName(STR, z3.String("c02_probe_glyph_name"))
+_GT = "self.otf['glyf']"
+_PSRC = "self.allGlyphs[probe]"
+_PREC = f"{_GT}.glyphs[probe]"
+_SORT_LOOP = "for name in sorted(self.glyphOrder, key=lambda n: maxComponentDepths.get(n, 0))"
+contract(
+    "ufo2ft.outlineCompiler:OutlineTTFCompiler.setupTable_glyf",
+    props=["C02"],
+    params={"self": Ref("C02_TTCompiler")},
+    globals={"probe": _PROBE},
+    sorted_axioms=True,
+    seq_positions=True,
+    requires=[
+        "'glyf' in self.tables and 'loca' in self.tables",
+        "all(n in self.allGlyphs for n in self.glyphOrder)",
+        "self._compiledGlyphs is None or (" + _CACHE_FACTS.format(d="self._compiledGlyphs") + ")",
+    ],
+    modifies=["TTFont.tbl:glyf", "TTFont.tbl:loca", "self._compiledGlyphs", "self._maxComponentDepths", "TTGlyphPointPen.glyphSet", "TTGlyphPointPen.drawn",
+              f"{_GLYF}.glyphs", f"{_GLYF}.glyphOrder"],
+    ensures={
+        "glyph-order": f"{_GT}.glyphOrder == self.glyphOrder",
+        # (for the arbitrary name `probe`)  a name of the glyph order is in the table, with THE record compiled for that name ...
+        "every-glyph-stored": f"implies(probe in self.glyphOrder, probe in {_GT}.glyphs and self._compiledGlyphs is not None and {_PREC} == self._compiledGlyphs[probe])",
+        # ... which was drawn from its own source glyph with the compiler's options (empty record for an unsupported curve structure) ...
+        "record-from-its-source": f"implies(probe in self.glyphOrder and not {_PSRC}.tt_invalid, not {_PREC}.empty and {_PREC}.src == {_PSRC} and {_PREC}.penGlyphSet == self.allGlyphs"
+                                  f" and {_PREC}.round == (1 if self.roundCoordinates else 0) and {_PREC}.dropImpliedOnCurves == self.dropImpliedOnCurves)",
+        "invalid-curves-empty": f"implies(probe in self.glyphOrder and {_PSRC}.tt_invalid, {_PREC}.empty)",
+        # ... and nothing else is in the table
+        "nothing-else": f"implies(probe in {_GT}.glyphs, probe in self.glyphOrder)",
+    },
+    raises={"ValueError": _RAISES + " and self._compiledGlyphs is None", "InvalidFontData": "depth_cycle(self) and not (" + _RAISES + " and self._compiledGlyphs is None)"},
+    canaries={"empty-table": f"probe in self.glyphOrder and probe not in {_GT}.glyphs"},
+    ghost_vars={"seen": (BOOL, "False")},
+    ghost={"glyf[name] = ttGlyph": ["seen = seen or name == probe"]},
+    locals={"ttGlyphs": Opt(Dict(STR, Ref("C02_TTGlyph")))},
+    loops={
+        _SORT_LOOP: Loop(
+            index="i", seq="SO",
+            invariants={
+                "table": "self.otf.get('glyf') is not None and glyf == self.otf['glyf']",
+                "order-kept": "glyf.glyphOrder == self.glyphOrder",
+                "seen-def": "seen == any(SO[a] == probe for a in range(i))",
+                "stored": "implies(seen, probe in glyf.glyphs and ttGlyphs is not None and glyf.glyphs[probe] == ttGlyphs[probe])",
+                "only": "implies(probe in glyf.glyphs, seen)",
+                "cache": "ttGlyphs is not None and self._compiledGlyphs == ttGlyphs",
+            },
+        )
+    },
+)
